@@ -60,7 +60,10 @@ CHECKS = [
      "ConfusionMatrix(binary=True) (+aliases) on stacked integer/float matrices incl. zero rows/columns and by evaluating "
      "the Lean spec predicates on the observed values.",
      BASE_NOTE + "scipy.stats.norm.isf and np.sqrt are oracles (isf antitone is a hypothesis of nesting); the harness "
-     "checks that the implementation asks isf for alpha/2; float sums/quotients compared with tolerance 1e-9 / 1e-12.",
+     "checks that the implementation asks isf for alpha/2; float sums/quotients compared with tolerance 1e-9 / 1e-12; float "
+     "rounding of the interval limits is bounded by ci_fl_error under the standard model of floating-point arithmetic (np.sqrt an "
+     "oracle rounded once; ciEps, evaluated by driver op cibound; the run reports DISAGREE float-bound above 4 x the bound, "
+     "observed maximum 0.89 x).",
      "Lean 4 proof about a hand-written model + differential correspondence check", "DESIGN.md §5 C04"),
  chk("C13",
      "The Lean model of utils.bootstrap_ci IS the documented formula (C13_quantile_levels, C13_bc_levels, C13_bca_levels: "
@@ -105,7 +108,9 @@ CHECKS = [
      "error branches are compared as exceptions.",
      BASE_NOTE + "hashable class labels are mapped to Nat codes by the harness (order-preserving, so np.unique = sorted "
      "dedup); pandas .loc and numpy fancy indexing by documented meaning; the leading shape X is handled member-wise; "
-     "float-weight sums compared with relative tolerance 1e-9, quotients 1e-12.",
+     "float-weight sums: every cell within 4 x wsumEps = ((k-1)u/(1-(k-1)u)) sum|w| of the exact total (C05_weighted_fl_error "
+     "under the standard model of floating-point arithmetic, driver op wsumbound, clause float-bound, observed maximum 0.997 x); "
+     "quotients 1e-12.",
      "Lean 4 proof about a hand-written model + differential correspondence check", "DESIGN.md §5 C05"),
  chk("C08",
      "Lean theorems: C08_swap_cm / C08_swap_rates (at every threshold incl. +-inf the matrix of swap() is the original with "
@@ -160,7 +165,10 @@ CHECKS = [
      "compared bit for bit when all float operations are exact (else as sorted multisets to 1e-9), the model's matrices and rates "
      "at the implementation's thresholds exactly, and the Lean spec predicates evaluated on the implementation's own arrays.",
      BASE_NOTE + "np.linspace(0,1,k) is modelled by its exact values i/(k-1); np.nextafter is an oracle; float rounding of the "
-     "interpolated thresholds and of the quotients is outside the proof; scalar (0-d) fnr/fpr/thresholds arguments and negative "
+     "interpolated support thresholds (incl. the rounding fl(i*fl(1/(k-1))) of the linspace targets themselves) is bounded by "
+     "thresholdAt_fl_error / thresholdAtE_fl_error / C15_linspace_fl_error under the standard model of floating-point arithmetic "
+     "(driver ops flbound, flboundlin; the run reports DISAGREE float-bound above 4 x the bound, observed maximum 0.63 x); float "
+     "rounding of the quotients is outside the proof; scalar (0-d) fnr/fpr/thresholds arguments and negative "
      "nb_points are outside the property.",
      "Lean 4 proof about a hand-written model + differential correspondence check", "DESIGN.md §5 C15"),
  chk("C06",
@@ -277,7 +285,9 @@ CHECKS = [
      "with Scores.auc on every case and evaluating the Lean predicates mwOK / stepOK / boundOK on the implementation's outputs, "
      "plus additivity and the complement / exchange identities as relations between real runs.",
      BASE_NOTE + "The nextafter oracle must be lawful and 'neighbourly' on the data (a < b in the data -> up a <= b and a <= down b); "
-     "np.trapezoid / np.searchsorted by documented meaning; float rounding of the trapezoid sum within 1e-9; limits equal to "
+     "np.trapezoid / np.searchsorted by documented meaning; float rounding of the trapezoid part is bounded by Scores.auc_fl_error "
+     "under the standard model of floating-point arithmetic (terms summed in ANY order; aucEps, evaluated by driver op aucbound; the "
+     "run reports DISAGREE float-bound above 4 x the bound, observed maximum 0.54 x) and within 1e-9 everywhere; limits equal to "
      "the double nearest k/N are sent to the model as k/N.",
      "Lean 4 proof about a hand-written model + differential correspondence check", "DESIGN.md §5 C07"),
  chk("C11",
